@@ -5,8 +5,9 @@ cd "$(dirname "$0")"
 export GOFLAGS=-mod=mod GOPROXY=off GOSUMDB=off GOTOOLCHAIN=local
 if [ -f tools/extract/main.go ]; then
   cp /repo/go.sum tools/extract/go.sum 2>/dev/null || true
-  (cd tools/extract && go run . /repo > ../../coq/Gen/Tables.v.new && \
-     (cmp -s ../../coq/Gen/Tables.v.new ../../coq/Gen/Tables.v || mv ../../coq/Gen/Tables.v.new ../../coq/Gen/Tables.v); rm -f ../../coq/Gen/Tables.v.new)
+  # writes coq/Gen/Tables.v and coq/Gen/Sigs.v, each only when its text changes; non-zero exit (and no
+  # file written) when a table can no longer be read out of the source
+  (cd tools/extract && go run . -o ../../coq/Gen /repo)
 fi
 python3 -c "import sys; sys.path.insert(0,'gen'); import common; common.write_coqproject()"
 (cd coq && coq_makefile -f _CoqProject -o Makefile >/dev/null && timeout 3000 make -j16)
